@@ -15,7 +15,7 @@ import Gonuts.Model.MintDriver
 open Gonuts Gonuts.Model
 
 structure St where
-  mint : Model.MintDriver.Sess := {}
+  mint : Model.Mint.Sess := {}
 
 def u64? (s : Sexp) : Option UInt64 := do
   let n ← s.asNat?
